@@ -143,6 +143,39 @@ func wrongTypeKey(tool string) (string, any) {
 	}
 }
 
+// WireName spells the tool name as the row says.
+func WireName(tool, spell string) (string, error) {
+	switch spell {
+	case "", "exact":
+		return tool, nil
+	case "trail_space":
+		return tool + " ", nil
+	case "lead_space":
+		return " " + tool, nil
+	case "trail_tab":
+		return tool + "\t", nil
+	case "trail_newline":
+		return tool + "\n", nil
+	case "lead_newline":
+		return "\n" + tool, nil
+	case "both_space":
+		return "  " + tool + "  ", nil
+	case "crlf":
+		return tool + "\r\n", nil
+	case "nbsp":
+		return tool + "\u00a0", nil
+	case "upper":
+		return strings.ToUpper(tool), nil
+	case "title":
+		return strings.ToUpper(tool[:1]) + tool[1:], nil
+	case "dash":
+		return strings.ReplaceAll(tool, "_", "-"), nil
+	case "dot_prefix":
+		return "tools." + tool, nil
+	}
+	return "", fmt.Errorf("unknown spelling %q", spell)
+}
+
 // ActorValue is the concrete actor for an abstract actor class.
 func ActorValue(class string) (string, bool) {
 	switch class {
@@ -188,6 +221,20 @@ func BuildArgs(r Row) (map[string]any, string, error) {
 		a[k] = v
 	case "path_absent":
 		delete(a, "path")
+	case "path_case_base":
+		a["path"] = "${CFGDIR}/hookaidofile"
+	case "path_case_dir":
+		a["path"] = "${ROOT}/CFGDIR/Hookaidofile"
+	case "path_dot":
+		a["path"] = "${CFGDIR}/./Hookaidofile"
+	case "path_trailing_slash":
+		a["path"] = "${CFG}/"
+	case "path_double_slash":
+		a["path"] = "${CFGDIR}//Hookaidofile"
+	case "pid_case_base":
+		a["pid_file"] = "${RUN}/HOOKAIDO.PID"
+	case "pid_dot":
+		a["pid_file"] = "${RUN}/./hookaido.pid"
 	case "path_foreign":
 		a["path"] = "${OTHER}"
 	case "path_dotdot_foreign":
@@ -297,11 +344,11 @@ func classifyPath(args map[string]any, key, configured string) string {
 		}
 		return "foreign"
 	}
-	if s == configured {
-		return "configured"
-	}
 	if t == "" {
 		return "none"
+	}
+	if t == configured { // surrounding white space is trimmed from every string argument
+		return "configured"
 	}
 	abs := t // never cleaned lexically: "link/.." must be resolved the way the kernel resolves it
 	if !filepath.IsAbs(abs) {
